@@ -13,7 +13,12 @@ outcome is compared with the expectation:
   kind "refactor" : the edit preserves behaviour; the check must exit 0.
 
 Nothing is ever applied to /repo itself; each scratch copy is removed as soon
-as its run is finished. One checker process per mutant.
+as its run is finished. One scratch copy per change, one checker process per
+(change, property).
+
+For a single property the refactorings replayed are its own and every one that
+touches a file in which the check has been shown to react; `--all` replays every
+refactoring under every check (the complete false-alarm replay).
 
 usage: audit.py [-j N] [--json out.json] PROP [PROP...]   |   audit.py --all
 """
@@ -78,32 +83,54 @@ def apply(m, dst):
     return None
 
 
-def run_one(m):
+def touched_files(m):
+    if "patch" in m:
+        fs = set()
+        for l in open(m["patch"], errors="replace"):
+            if l.startswith("+++ "):
+                f = l[4:].strip().split("\t")[0]
+                if f.startswith("b/"):
+                    f = f[2:]
+                fs.add(f)
+        return fs
+    return {e["file"] for e in m.get("edits", [])}
+
+
+def judge(m, rc, out):
+    if m["kind"] == "break":
+        if rc == 1 and "VIOLATION property=" + m["property"] in out and (m.get("expect", "") in out):
+            lines = [l for l in out.splitlines() if l.startswith(("FINDING", "UNDECIDED", "VACUITY"))]
+            return dict(m=m, status="killed", detail=(lines[0] if lines else "")[:300])
+        return dict(m=m, status="survived", detail="exit=%d; expected substring %r %s" % (rc, m.get("expect", ""), "present" if m.get("expect", "") in out else "absent") + "; " + " | ".join([l for l in out.splitlines() if l.startswith(("FINDING", "UNDECIDED", "VACUITY", "ERROR"))][:3])[:500])
+    if rc == 0:
+        return dict(m=m, status="silent", detail="")
+    lines = [l for l in out.splitlines() if l.startswith(("FINDING", "UNDECIDED", "VACUITY", "ERROR"))]
+    return dict(m=m, status="false-alarm", detail=" | ".join(lines[:3])[:500])
+
+
+def run_group(ms):
+    """All items of one change (same id): one scratch copy, one build, one checker process per
+    property named."""
+    m0 = ms[0]
     d, dst = scratch_copy()
     try:
-        err = apply(m, dst)
+        err = apply(m0, dst)
         if err:
-            return dict(m=m, status="stale", detail=err)
-        # the mutant must still compile, otherwise it is not a realistic change
-        pkgs = sorted({"./" + os.path.dirname(e["file"]) for e in m.get("edits", []) if e["file"].endswith(".go")}) or ["./pub"]
+            return [dict(m=m, status="stale", detail=err) for m in ms]
+        # the change must still compile, otherwise it is not a realistic change
+        pkgs = sorted({"./" + os.path.dirname(f) for f in touched_files(m0) if f.endswith(".go")}) or ["./pub"]
         b = subprocess.run(["go", "build"] + pkgs, cwd=dst, env=ENV, capture_output=True, text=True)
         if b.returncode != 0:
-            return dict(m=m, status="stale", detail="mutant does not compile: " + (b.stdout + b.stderr)[:400])
-        vd = os.path.join(d, "verif")
-        os.makedirs(os.path.join(vd, "evidence"))
-        shutil.copy(os.path.join(VERIF, "known_findings.txt"), vd)
-        r = subprocess.run([CHK, "-prop", m["property"], "-tier", "quick", "-repo", dst, "-verif", vd], env=ENV, capture_output=True, text=True)
-        out = r.stdout + r.stderr
-        if m["kind"] == "break":
-            if r.returncode == 1 and "VIOLATION property=" + m["property"] in out and (m.get("expect", "") in out):
-                lines = [l for l in out.splitlines() if l.startswith(("FINDING", "UNDECIDED", "VACUITY"))]
-                return dict(m=m, status="killed", detail=(lines[0] if lines else "")[:300])
-            return dict(m=m, status="survived", detail="exit=%d; expected substring %r %s" % (r.returncode, m.get("expect", ""), "present" if m.get("expect", "") in out else "absent") + "; " + " | ".join([l for l in out.splitlines() if l.startswith(("FINDING", "UNDECIDED", "VACUITY", "ERROR"))][:3])[:500])
-        else:
-            if r.returncode == 0:
-                return dict(m=m, status="silent", detail="")
-            lines = [l for l in out.splitlines() if l.startswith(("FINDING", "UNDECIDED", "VACUITY", "ERROR"))]
-            return dict(m=m, status="false-alarm", detail=" | ".join(lines[:3])[:500])
+            return [dict(m=m, status="stale", detail="change does not compile: " + (b.stdout + b.stderr)[:400]) for m in ms]
+
+        def one(m):
+            vd = os.path.join(d, "verif_" + m["property"])
+            os.makedirs(os.path.join(vd, "evidence"))
+            shutil.copy(os.path.join(VERIF, "known_findings.txt"), vd)
+            r = subprocess.run([CHK, "-prop", m["property"], "-tier", "quick", "-repo", dst, "-verif", vd], env=ENV, capture_output=True, text=True)
+            return judge(m, r.returncode, r.stdout + r.stderr)
+        with cf.ThreadPoolExecutor(max_workers=int(os.environ.get("AUDIT_INNER", "4"))) as ex:
+            return list(ex.map(one, ms))
     finally:
         shutil.rmtree(d, ignore_errors=True)
 
@@ -127,7 +154,24 @@ def main():
             only = args[i + 1]; i += 2
         else:
             props.append(args[i]); i += 1
-    ms = [m for m in load_mutants() if allp or m["property"] in props]
+    allms = load_mutants()
+    ms = [m for m in allms if allp or m["property"] in props]
+    if not allp:
+        # refactorings replayed for one property: its own (id prefix) and every one that touches a
+        # file in which this check has been shown to react (files edited by its mutants and by the
+        # seeded changes it reports); `--all` replays every refactoring under every check
+        keep = []
+        for prop in props:
+            hot = set()
+            for m in ms:
+                if m["property"] == prop and m["kind"] == "break":
+                    hot |= touched_files(m)
+            for m in ms:
+                if m["property"] != prop:
+                    continue
+                if m["kind"] != "refactor" or m["id"].split("/")[-1].startswith(prop + "-") or (touched_files(m) & hot):
+                    keep.append(m)
+        ms = keep
     if only:
         ms = [m for m in ms if re.search(only, m["id"])]
     if not ms:
@@ -136,10 +180,14 @@ def main():
             json.dump({"mutants": 0}, open(outp, "w"))
         return 0
     res = []
+    groups = {}
+    for m in ms:
+        groups.setdefault(m["id"], []).append(m)
     with cf.ThreadPoolExecutor(max_workers=jobs) as ex:
-        for r in ex.map(run_one, ms):
-            res.append(r)
-            print("%-11s %-5s %-34s %s" % (r["status"], r["m"]["property"], r["m"]["id"], r["detail"][:160]))
+        for rs in ex.map(run_group, list(groups.values())):
+            for r in rs:
+                res.append(r)
+                print("%-11s %-5s %-34s %s" % (r["status"], r["m"]["property"], r["m"]["id"], r["detail"][:160]), flush=True)
     bad = [r for r in res if r["status"] in ("survived", "false-alarm", "stale")]
     summary = {
         "mutants": len(res),
